@@ -18,6 +18,8 @@ def render_setting(c, kind, name):
     """a setting whose text is a well-formed SGR parameter group with symbolic numbers"""
     if kind == 'code':
         code = c.named_int('code_' + name, 0, 110)
+        # a bare 38/48/58 is an incomplete extended-colour group, not a well-formed parameter group
+        c.assume(b_and(i_cmp('!=', code, 38), i_cmp('!=', code, 48), i_cmp('!=', code, 58)))
         rope = sym.mk_rope([('istr', code)])
     elif kind == 'c256':
         intro = [38, 48, 58][c.choice(3)]
@@ -86,7 +88,7 @@ GROUPS.append(Group('R4', 'to_str (all 8 flag combinations): a conforming termin
                     ['AnsiString.to_str', 'AnsiString.is_optimizable', 'AnsiString.is_formatting_parsable', 'settings_to_dict',
                      'AnsiSetting.get_initial_param', 'AnsiSetting.parsable', 'AnsiSetting.to_list', '_AnsiSettingsIterator.__next__',
                      '_AnsiControlFn.seq_starts_with_fn'], r4_items, r4_task,
-                    bounds='change points N<=3, setting objects<=2/3; setting texts: a symbolic code 0..110 (known, unknown, clear, '
+                    bounds='change points N<=3, setting objects<=2/3; setting texts: a symbolic code 0..110 other than a bare 38/48/58 (known, unknown, clear, '
                     'reset), 38/48/58;5;n or 38/48/58;2;r;g;b with symbolic arguments; text length, keys, flags, prior terminal '
                     'state symbolic; base text without ESC', assumes=['K1']))
 
@@ -122,3 +124,35 @@ def t1_task(envr, item):
 GROUPS.append(Group('T1', 'AnsiParam / EFFECT_CLEAR_DICT / _AnsiControlFn agree with the independent SGR table on all 256 codes',
                     ['C01', 'C02', 'C18', 'C07'], 'U', ['AnsiParam.__init__', '_AnsiControlFn.__init__'], t1_items, t1_task,
                     bounds='none (finite: all 256 codes, 15 groups, 6 functions, exhaustive)'))
+
+
+# ============================================================================================= R3: str() / format() delegate to to_str
+CL_R3S = [Clause('str-is-to_str', 'post_str_is_to_str')]
+CL_R3F = [Clause('format-is-to_str-with-the-spec', 'post_format_is_to_str')]
+
+
+def r3_items(tier):
+    shp = [sh for sh in shapes.table_shapes(2, 2, 2, 2, reuse=False)]
+    return [[sh, fn] for sh in shp for fn in ('__str__', '__format__none', '__format__empty')]
+
+
+def r3_task(envr, item):
+    shape, fn = item
+
+    def body(c):
+        sett = {j: render_setting(c, 'code', 's%d' % j) for j in range(shapes.shape_nobj(shape))}
+        s, info = shapes.build_ansistring(c, shape, 'a', settings=sett)
+        info['text'].escfree = True
+        if fn == '__str__':
+            run_contract(envr, c, 'AnsiString.__str__', s, [], {}, CL_R3S, frame=('self',))
+        else:
+            spec = None if fn.endswith('none') else ''
+            run_contract(envr, c, 'AnsiString.__format__', s, [spec], {}, CL_R3F, frame=('self',), fields={'spec': spec},
+                         arg_names=['spec_arg'])
+    return ContractRun(body, CL_R3S if fn == '__str__' else CL_R3F, frame=('self',), use=('K1',),
+                       names=None if fn == '__str__' else ['spec_arg'])
+
+
+GROUPS.append(Group('R3', 'str(s) and format(s, "") are to_str() with its defaults', ['C01'], 'B',
+                    ['AnsiString.__str__', 'AnsiString.__format__'], r3_items, r3_task,
+                    bounds='change points N<=2, objects<=2 (delegation; the rendering itself is group R4)', assumes=['K1']))
